@@ -271,6 +271,133 @@ a short list with cap 2: see the `batches_partition` example); here: the arithme
 batch of the repaired code is within the limit. -/
 example : 2 + Consts.MAX_BATCH_BLOCKS * lenPair.entryLen (4, 1) ≤ Consts.MAX_MESSAGE_SIZE := by decide
 
+/-- `send_response` with the node's constants on a substream whose codec accepts frames of up to
+`codecMax` bytes (`bitswap/config.rs`: `UnsignedVarint(Some(MAX_MESSAGE_SIZE))`). -/
+abbrev nodeRespond {π : Type} (P : PSized π) (codecMax : Nat) (entries : List (Entry π (Cid × Bytes))) :=
+  respond P wireBlocks Consts.MAX_BATCH_SIZE Consts.MAX_BATCH_BLOCKS Consts.MAX_MESSAGE_SIZE codecMax entries
+
+/-- **A presence message is written only within the size limit.** Whatever the response and the
+codec's limit: if `send_response` writes a presence message at all, it is the first message, it
+carries exactly the presence entries of the response (non-empty, in order), its encoding is the one
+`presences_message` produces and that has at most `MAX_MESSAGE_SIZE` bytes (regenerated constant);
+every other message is a blocks message. -/
+theorem presence_within_limit {π : Type} (P : PSized π) (codecMax : Nat)
+    (entries : List (Entry π (Cid × Bytes))) (ps : List π) (len : Nat)
+    (h : Frame.presences ps len ∈ (nodeRespond P codecMax entries).1) :
+    len ≤ Consts.MAX_MESSAGE_SIZE ∧ ps = presencesOf entries ∧ ps ≠ [] ∧
+    presencesMessageLen P ps = some len ∧
+    ∃ rest, (nodeRespond P codecMax entries).1 = Frame.presences ps len :: rest ∧
+      ∀ f ∈ rest, ∃ batch l, f = Frame.blocks batch l := by
+  have hblk := respondLoop_blocks_only (π := π) wireBlocks Consts.MAX_BATCH_SIZE Consts.MAX_BATCH_BLOCKS
+    Consts.MAX_MESSAGE_SIZE codecMax ((blocksOf entries).length + 1) (blocksOf entries)
+  have hno : ∀ {l : List (Frame π (Cid × Bytes))}, (∀ f ∈ l, ∃ batch k, f = Frame.blocks batch k) →
+      Frame.presences ps len ∉ l := by
+    intro l hl hmem
+    obtain ⟨_, _, he⟩ := hl _ hmem
+    cases he
+  unfold nodeRespond at h ⊢
+  rcases respond_cases wireBlocks Consts.MAX_BATCH_SIZE Consts.MAX_BATCH_BLOCKS P Consts.MAX_MESSAGE_SIZE
+    codecMax entries with ⟨_, he⟩ | ⟨_, _, _, he⟩ | ⟨l, hl, hle, _, he⟩ | ⟨_, _, _, _, he⟩
+  · rw [he] at h; exact absurd h (hno hblk)
+  · rw [he] at h; exact absurd h (hno hblk)
+  · rw [he] at h ⊢
+    simp only [List.mem_cons] at h
+    rcases h with h | h
+    · simp only [Frame.presences.injEq] at h
+      obtain ⟨rfl, rfl⟩ := h
+      refine ⟨hle, rfl, ?_, hl, _, rfl, hblk⟩
+      intro h0
+      rw [h0] at hl
+      simp [presencesMessageLen] at hl
+    · exact absurd h (hno hblk)
+  · rw [he] at h; simp at h
+
+/-- Non-vacuity (small limits so that both outcomes show): two presences (a 36-byte CID with
+`DontHave`, 42 bytes, and with `Have`, 40 bytes) and a block; with `maxMsg = 100` the presence message
+(84 bytes) is written first, with `maxMsg = 83` it is skipped and only the block goes out; and on the
+node's constants the presence message is written. -/
+example :
+    respond lenPres lenPair 20 8 100 100 [.presence (36, 1), .block (4, 10), .presence (36, 0)] =
+      ([.presences [(36, 1), (36, 0)] 84, .blocks [(4, 10)] 22], .ok) ∧
+    respond lenPres lenPair 20 8 83 83 [.presence (36, 1), .block (4, 10), .presence (36, 0)] =
+      ([.blocks [(4, 10)] 22], .ok) ∧
+    (nodeRespond lenPres Consts.MAX_MESSAGE_SIZE [.presence (36, 1), .presence (36, 0)]).1 =
+      [.presences [(36, 1), (36, 0)] 84] := by
+  decide
+
+/-- **Blocks are sent whatever the presence list.** With the node's constants, on a substream whose
+codec accepts every frame of up to `MAX_MESSAGE_SIZE` bytes (the configured codec does), for every
+response — any mix of presences and well-formed blocks: `send_response` returns `Ok`; the messages
+written are an optional presence message followed by exactly the messages of the block-only response;
+the block messages carry, in order, exactly the blocks whose data is at most `MAX_BATCH_SIZE` — none
+lost, duplicated or reordered; and every written message has at most `MAX_MESSAGE_SIZE` bytes.
+
+Actual behaviour of the code for an oversized presence list (more than about 10^5 entries): the
+presence message is NOT split; it is skipped as a whole with a warning (`respond_cases`, second
+case) — the presences are silently lost, the blocks are unaffected. The property speaks about blocks
+and message sizes only. The guard matters: without it the write is rejected by the codec and the
+function returns before any block is sent (fourth case of `respond_cases`, excluded here because
+`len ≤ MAX_MESSAGE_SIZE ≤ codecMax`). -/
+theorem blocks_sent_regardless_of_presences {π : Type} (P : PSized π) (codecMax : Nat)
+    (hcodec : Consts.MAX_MESSAGE_SIZE ≤ codecMax) (entries : List (Entry π (Cid × Bytes)))
+    (hwf : ∀ b ∈ blocksOf entries, b.1.version ≤ 1 ∧ b.1.digest.length ≤ MH_ALLOC) :
+    (nodeRespond P codecMax entries).2 = SendResult.ok ∧
+    (∃ pre, (nodeRespond P codecMax entries).1 =
+        pre ++ (nodeRespond P codecMax ((blocksOf entries).map Entry.block)).1 ∧
+      (pre = [] ∨ ∃ len, pre = [Frame.presences (presencesOf entries) len])) ∧
+    (blockBatches (nodeRespond P codecMax entries).1).flatten =
+      (blocksOf entries).filter (fun b => decide (b.2.length ≤ Consts.MAX_BATCH_SIZE)) ∧
+    ∀ f ∈ (nodeRespond P codecMax entries).1, f.len ≤ Consts.MAX_MESSAGE_SIZE := by
+  obtain ⟨i1, i2, i3⟩ := respondLoop_spec (π := π) wireBlocks Consts.MAX_BATCH_SIZE Consts.MAX_BATCH_BLOCKS
+    Consts.MAX_MESSAGE_SIZE codecMax hcodec ((blocksOf entries).length + 1) (blocksOf entries)
+  obtain ⟨hterm, hflat⟩ := fitting_blocks_sent_once (blocksOf entries) hwf
+  unfold sendResponse at hterm hflat
+  rw [hterm] at i2
+  replace i2 : (respondLoop π wireBlocks Consts.MAX_BATCH_SIZE Consts.MAX_BATCH_BLOCKS
+      Consts.MAX_MESSAGE_SIZE codecMax ((blocksOf entries).length + 1) (blocksOf entries)).2 = SendResult.ok := by
+    simpa using i2
+  replace i1 := congrArg List.flatten i1
+  rw [hflat] at i1
+  have hbo := respond_blocks_only (π := π) wireBlocks Consts.MAX_BATCH_SIZE Consts.MAX_BATCH_BLOCKS P
+    Consts.MAX_MESSAGE_SIZE codecMax (blocksOf entries)
+  unfold nodeRespond
+  rw [hbo]
+  have hlen : ∀ f ∈ (respondLoop π wireBlocks Consts.MAX_BATCH_SIZE Consts.MAX_BATCH_BLOCKS
+      Consts.MAX_MESSAGE_SIZE codecMax ((blocksOf entries).length + 1) (blocksOf entries)).1,
+      f.len ≤ Consts.MAX_MESSAGE_SIZE := fun f hf => (i3 f hf).1
+  rcases respond_cases wireBlocks Consts.MAX_BATCH_SIZE Consts.MAX_BATCH_BLOCKS P Consts.MAX_MESSAGE_SIZE
+    codecMax entries with ⟨_, he⟩ | ⟨_, _, _, he⟩ | ⟨l, _, hle, _, he⟩ | ⟨l, _, hle, hgt, _⟩
+  · rw [he]; exact ⟨i2, ⟨[], rfl, Or.inl rfl⟩, i1, hlen⟩
+  · rw [he]; exact ⟨i2, ⟨[], rfl, Or.inl rfl⟩, i1, hlen⟩
+  · rw [he]
+    refine ⟨i2, ⟨[Frame.presences (presencesOf entries) l], rfl, Or.inr ⟨l, rfl⟩⟩, ?_, ?_⟩
+    · simpa only [blockBatches] using i1
+    · intro f hf
+      simp only [List.mem_cons] at hf
+      rcases hf with rfl | hf
+      · exact hle
+      · exact hlen f hf
+  · omega
+
+/-- Non-vacuity: a response of two presences around two blocks under the configured codec; the
+arithmetic of an oversized presence list on the real constants (110 000 `DontHave` entries for 36-byte
+CIDs need 2 + 110000·42 bytes > `MAX_MESSAGE_SIZE`); and, with small limits, such a list skipped while
+the blocks still go out — against the variant of the code without the guard modelled by a guard limit
+above the codec's (`maxMsg = 1000`, `codecMax = 83`): the write fails and nothing is sent. -/
+example :
+    let c : Cid := ⟨1, 0x55, 0x12, List.replicate 32 0⟩
+    (Consts.MAX_MESSAGE_SIZE ≤ Consts.MAX_MESSAGE_SIZE) ∧
+    ((nodeRespond wirePres Consts.MAX_MESSAGE_SIZE
+        [.presence (c, 1), .block (c, [1, 2, 3]), .presence (c, 0), .block (c, [])]).1.map Frame.len,
+      (nodeRespond wirePres Consts.MAX_MESSAGE_SIZE
+        [.presence (c, 1), .block (c, [1, 2, 3]), .presence (c, 0), .block (c, [])]).2) = ([84, 23], .ok) ∧
+    Consts.MAX_MESSAGE_SIZE < 2 + 110000 * presenceEntryLen 36 1 ∧
+    respond lenPres lenPair 20 8 83 83 [.presence (36, 1), .block (4, 10), .presence (36, 0), .block (4, 11)] =
+      ([.blocks [(4, 10)] 22, .blocks [(4, 11)] 23], .ok) ∧
+    respond lenPres lenPair 20 8 1000 83 [.presence (36, 1), .block (4, 10), .presence (36, 0), .block (4, 11)] =
+      ([], .writeError) := by
+  decide
+
 #print axioms cid_self_certifying
 #print axioms malformed_dropped
 #print axioms prefix_roundtrip
@@ -279,5 +406,7 @@ example : 2 + Consts.MAX_BATCH_BLOCKS * lenPair.entryLen (4, 1) ≤ Consts.MAX_M
 #print axioms batch_size_bound
 #print axioms fitting_blocks_sent_once
 #print axioms batch_oversize_witness
+#print axioms presence_within_limit
+#print axioms blocks_sent_regardless_of_presences
 
 end Litep2pVerif.Props.C20
